@@ -65,9 +65,9 @@ static void fill_pls_stats(PLSMODEL *m, size_t k, size_t sel)
   if(ON) fillm(m->precision_recall_ap_recalculated, 2+k, 1, 0.7);
   if(ON) fillm(m->precision_recall_ap_validation, 2+k, 1, 0.6);
   if(ON) fillt(m->roc_recalculated, 1+k, 3, 2, 100.0);
-  if(ON) fillt(m->roc_validation, 1+k, 4, 2, 200.0);
-  if(ON) fillt(m->precision_recall_recalculated, 1+k, 5, 2, 300.0);
-  if(ON) fillt(m->precision_recall_validation, 1+k, 6, 2, 400.0);
+  if(ON) fillt(m->roc_validation, 1+k, 4, 4, 200.0);           /* column counts 2, 4, 8, 3 */
+  if(ON) fillt(m->precision_recall_recalculated, 1+k, 5, 8, 300.0);
+  if(ON) fillt(m->precision_recall_validation, 1+k, 6, 3, 400.0);
 #undef ON
 }
 static void pr_cpca(const char *pre, CPCAMODEL *m)
